@@ -1,2 +1,71 @@
-From Burrow Require Import Int64 Int64Proofs Eval.
-Example placeholder_C03 : True. Proof. exact I. Qed.
+(* C03 — Partition status follows the documented lag rules.
+   Statements only; proofs are in EvalProofs.v.  Model: Eval.v (tied to
+   core/internal/evaluator/caching.go by the probe of checks/c03.py on every run). *)
+From Coq Require Import ZArith List.
+From Burrow Require Import Int64 F32 Eval EvalSpec EvalProofs.
+Import ListNotations.
+Open Scope Z_scope.
+
+(* For every non-empty window, broker history, lag, allowed lag and clock value (inside the range
+   where Go's int64 stop-rule arithmetic cannot wrap) the computed status is the one the documented
+   decision list yields, and that list yields exactly one status. *)
+Theorem C03_status_is_documented_procedure :
+  forall offs brokers cur now allowed s,
+    offs <> [] -> no_overflow offs now ->
+    (calc_status (map Some offs) brokers cur now allowed = Ok s <-> Spec offs brokers cur now allowed s).
+Proof. exact calc_status_documented. Qed.
+Print Assumptions C03_status_is_documented_procedure.
+
+Theorem C03_spec_deterministic :
+  forall offs brokers cur now allowed s1 s2,
+    Spec offs brokers cur now allowed s1 -> Spec offs brokers cur now allowed s2 -> s1 = s2.
+Proof. exact spec_deterministic. Qed.
+Print Assumptions C03_spec_deterministic.
+
+Theorem C03_within_allowed_lag_is_ok :
+  forall offs brokers cur now allowed,
+    cur <= allowed -> calc_status offs brokers cur now allowed = Ok StOK.
+Proof. exact within_allowed_is_ok. Qed.
+Print Assumptions C03_within_allowed_lag_is_ok.
+
+Theorem C03_shift_offsets :
+  forall k offs brokers cur now allowed,
+    calc_status_some (shift_offsets k offs) (map (fun b => b + k) brokers) cur now allowed
+    = calc_status_some offs brokers cur now allowed.
+Proof. exact shift_offsets_invariant. Qed.
+Print Assumptions C03_shift_offsets.
+
+Theorem C03_shift_times :
+  forall k offs brokers cur now allowed,
+    no_overflow offs now -> no_overflow (shift_times k offs) (now + k) ->
+    calc_status_some (shift_times k offs) brokers cur (now + k) allowed
+    = calc_status_some offs brokers cur now allowed.
+Proof. exact shift_times_invariant. Qed.
+Print Assumptions C03_shift_times.
+
+(* evaluatePartitionStatus on a window with b unfilled slots followed by commits: the completeness
+   gate decides between the rule procedure and OK; first/last commit are reported. *)
+Theorem C03_partition_gate :
+  forall b c0 cs p minimum allowed now,
+    cp_offsets p = repeat None b ++ map Some (c0 :: cs) ->
+    eval_partition p minimum allowed now =
+    Ok (if f32_ge (part_complete b (S (length cs))) minimum
+        then calc_status_some (c0 :: cs) (cp_brokers p) (cp_lag p) now allowed else StOK,
+        Some c0, Some (last (c0 :: cs) c0), part_complete b (S (length cs))).
+Proof. exact eval_partition_shape. Qed.
+Print Assumptions C03_partition_gate.
+
+Theorem C03_incomplete_is_ok :
+  forall b c0 cs p minimum allowed now,
+    cp_offsets p = repeat None b ++ map Some (c0 :: cs) ->
+    f32_ge (part_complete b (S (length cs))) minimum = false ->
+    exists st en c, eval_partition p minimum allowed now = Ok (StOK, st, en, c).
+Proof. exact incomplete_is_ok. Qed.
+Print Assumptions C03_incomplete_is_ok.
+
+Theorem C03_no_nil_dereference :
+  forall b cs p minimum allowed now,
+    cp_offsets p = repeat None b ++ map Some cs -> (cs = [] -> cp_lag p <= allowed) ->
+    exists r, eval_partition p minimum allowed now = Ok r.
+Proof. exact eval_partition_no_crash. Qed.
+Print Assumptions C03_no_nil_dereference.
